@@ -325,6 +325,7 @@ class Tracer:
             "run": self.run_id,
             "time": int(sim.sim_time),
             "dt": int(sim.sim_timestep_duration_seconds),
+            "dt_cfg": int(env.config.sim.timestep_duration_seconds),
             "cancel": int(env.config.sim.request_cancel_time_seconds),
             "searchres": int(sim.sim_h3_search_resolution),
             "fleetids": sorted(env.fleet_ids),
